@@ -97,7 +97,7 @@ pub fn gen_directive_heavy(t: &mut Tape) -> String {
     s
 }
 
-const OPENERS: &[(&str, &str)] = &[
+pub const OPENERS: &[(&str, &str)] = &[
     ("begin ", "end; "),
     ("(", ")"),
     ("[", "]"),
@@ -118,7 +118,32 @@ const OPENERS: &[(&str, &str)] = &[
     ("{$ifdef A} ", "{$endif} "),
     ("begin\n", "end;\n"),
     ("if a then begin ", "end else "),
+    ("case x of 1: begin ", "end; end; "),
+    ("if a then begin b; ", "end; "),
+    ("for i := 1 to 2 do begin ", "end; "),
+    ("while a do begin ", "end; "),
+    ("try begin ", "end; finally end; "),
+    ("Foo(procedure begin ", "end); "),
+    ("if a then if b then ", ""),
+    ("a.b(c, ", ")"),
+    ("if x then begin end else ", ""),
 ];
+
+/// A nest of `depth` copies of one construct (for the work-scaling oracle).
+pub fn nest(kind: usize, depth: usize, close: bool) -> String {
+    let (o, c) = OPENERS[kind % OPENERS.len()];
+    let mut s = String::new();
+    for _ in 0..depth {
+        s.push_str(o);
+    }
+    s.push_str("x;");
+    if close {
+        for _ in 0..depth {
+            s.push_str(c);
+        }
+    }
+    s
+}
 
 /// Nested constructs up to `max_depth` (the cap keeps clear of the stack-overflow finding).
 pub fn gen_deep(t: &mut Tape, max_depth: u32) -> String {
